@@ -121,7 +121,8 @@ VDecode(ev) ==
 \* AVP::try_read_greedy
 VDecodeAvps(ev) ==
   LET sp == DecodeAvps(ev.in)
-      One(r) == (IF ~Finished(r.out) THEN <<"outcome-" \o r.out.t>> \o T(\E i \in 1..Len(sp.items) : sp.items[i].t = "ok", "unaccepted")
+      \* (C05 compares the list element-wise: no list at all differs from any list)
+      One(r) == (IF ~Finished(r.out) THEN <<"outcome-" \o r.out.t, "unaccepted">>
                  ELSE T(~ItemsEq(sp.items, r.out.v), "value")
                       \o T(ItemsEq(sp.items, r.out.v) /\ ~sp.stopped /\ r.rem # sp.rem, "rem"))
                 \o ReaderTags(r, ev.in)
@@ -131,7 +132,7 @@ VDecodeAvps(ev) ==
 VDecodePayload(ev) ==
   LET One(r) == (IF ~IsKnownType(ev.t) \/ ev.t = 39
                    THEN T(r.out.t # "none", "harness-per-type")
-                 ELSE IF ~Finished(r.out) THEN <<"outcome-" \o r.out.t>> \o T(DecodePayload(ev.t, ev.in).t = "ok", "unaccepted")
+                 ELSE IF ~Finished(r.out) THEN <<"outcome-" \o r.out.t, "unaccepted">>
                  ELSE T(~ItemEq(DecodePayload(ev.t, ev.in), r.out), "value"))
                 \o ReaderTags(r, ev.in)
   IN ConcatTags(One, Runs(ev), 1) \o DiffTags("item", ev) \o IoTags(ev)
